@@ -204,10 +204,65 @@ def run(ctx):
                               bound=bound, cond=float(cond), weights=[float(x) for x in w])
                 break
     ctx.notes.append('worst |rule(monomial) - expected| / bound on this run: %.3g' % worst)
+    pairing_search(ctx)
     ctx.assumptions.append('numpy.linalg.pinv is modelled by the exact inverse of the moment matrix; configurations with '
                            'cond*eps > 1e-3 are outside the property (numerically singular) and are counted, not compared')
     fdm.FD_RULES.clear()
     fdm.FD_RULES.update(initial_cache)
+
+
+def pairing_search(ctx):
+    """The rule and the Richardson stage `Derivative` pairs with it, through the public API: with exactly as many dyadic steps as
+    the rule and two Richardson terms consume, x**k is differentiated exactly (to rounding) for every k below
+    n + method_order + 2 * richardson_step — the rule is exact below its order and the paired extrapolation removes the next two
+    error powers.  Fresh objects and objects that reach (method, order, n) by attribute assignment."""
+    import warnings
+    import numdifftools as nd
+    from numdifftools.finite_difference import LogRule
+    from numdifftools.step_generators import MaxStepGenerator, MinStepGenerator
+    rng = ctx.rng
+    REAL = ['central', 'forward', 'backward']
+    worst = 0.0
+    for _ in range(ctx.budget(150, 1500)):
+        m = rng.choice(REAL + ['complex'])
+        n, o = rng.randint(1, 4), rng.randint(1, 6)
+        r = LogRule(n=n, method=m, order=o)
+        mo, rs = r.method_order, r.richardson_step
+        ns = r.rule(2.0).size + 2
+        k = rng.randint(n, n + mo + 2 * rs - 1)
+        gen = (MaxStepGenerator(base_step=1.0, step_ratio=2.0, num_steps=ns) if m != 'complex' else
+               MinStepGenerator(base_step=2.0 ** -ns, step_ratio=2.0, num_steps=ns))
+        reconf = rng.random() < 0.5
+        m0, o0, n0 = m, o, n
+        if reconf:
+            m0 = rng.choice(REAL) if m in REAL else m
+            o0 = rng.randint(1, 6)
+            n0 = rng.choice([n, n, rng.randint(1, 4)])
+        rep = dict(method=m, n=n, order=o, power=k, num_steps=ns,
+                   reached_by=('assignment from (%s, n=%d, order=%d)' % (m0, n0, o0)) if reconf else 'construction')
+        ctx.tried(('pairing', m, n, o, k, m0, n0, o0))
+        try:
+            with warnings.catch_warnings():
+                warnings.simplefilter('ignore')
+                d = nd.Derivative(lambda t: t ** k, n=n0, method=m0, order=o0, step=gen)
+                if reconf:
+                    if rng.random() < 0.5:
+                        d(1.0)
+                    if n0 != n:
+                        d.n = n
+                    d.method = m
+                    d.order = o
+                v = float(d(1.0))
+        except Exception as ex:
+            ctx.violation('Derivative raised %r' % ex, **rep)
+            continue
+        exact = math.factorial(k) / math.factorial(k - n)
+        rel = abs(v - exact) / (1 + abs(exact))
+        worst = max(worst, rel)
+        if not rel <= 1e-5:
+            ctx.violation('rule and paired Richardson extrapolation are not exact on x**k below n + method_order + 2*richardson_step',
+                          got=v, expected=exact, **rep)
+    ctx.notes.append('pairing search: worst relative deviation %.3g (tolerance 1e-5)' % worst)
 
 
 def replay(ctx, path):
